@@ -318,7 +318,7 @@ Section BulkProofs.
       + (* BHas k *)
         destruct (fault OpHas (b_nhas s)).
         * inversion E; subst; clear E.
-          apply mk_inv; [apply (Hpool _ (BErr k)); simp; auto using incl_refl|];
+          apply mk_inv; [apply (Hpool _ (BUnmark k)); simp; auto using incl_refl|];
             apply (eff_doomed s); simp; auto using incl_refl; eapply doomed_new; eauto; exact Logic.I.
         * destruct (has (b_store s) (jid k)) eqn:Eh; inversion E; subst; clear E.
           -- apply mk_inv;
@@ -610,11 +610,11 @@ Proof.
 Qed.
 
 (* ================= ChunkStorage used with retries (no errgroup around it) ================= *)
-(* after a failed ws.StoreChunk the id is unmarked: a retry stores the chunk *)
-Theorem cs_retry_after_store_error proc st i b :
+(* after a failed ws.StoreChunk the id is unmarked: a retry stores the chunk (before and after the fix) *)
+Theorem cs_retry_after_store_error fixed proc st i b :
   memN i proc = false -> has st i = false ->
-  let '(r1, proc1, st1) := cs_store_seq proc st i b false true in
-  let '(r2, proc2, st2) := cs_store_seq proc1 st1 i b false false in
+  let '(r1, proc1, st1) := cs_store_seq fixed proc st i b false true in
+  let '(r2, proc2, st2) := cs_store_seq fixed proc1 st1 i b false false in
   r1 = false /\ r2 = true /\ has st2 i = true.
 Proof.
   intros Hm Hh. unfold cs_store_seq. rewrite Hm, Hh.
@@ -624,11 +624,25 @@ Proof.
   rewrite E, Hh. repeat split. rewrite has_cons, N.eqb_refl. reflexivity.
 Qed.
 
-(* after a failed ws.HasChunk the id stays marked: a retry returns nil without storing *)
-Theorem cs_retry_after_has_error_refuted :
+(* the same after a failed ws.HasChunk, in the current code *)
+Theorem cs_retry_after_has_error proc st i b :
+  memN i proc = false -> has st i = false ->
+  let '(r1, proc1, st1) := cs_store_seq true proc st i b true false in
+  let '(r2, proc2, st2) := cs_store_seq true proc1 st1 i b false false in
+  r1 = false /\ r2 = true /\ has st2 i = true.
+Proof.
+  intros Hm Hh. unfold cs_store_seq. rewrite Hm.
+  assert (E : memN i (delN i (i :: proc)) = false).
+  { destruct (memN i (delN i (i :: proc))) eqn:E; [|reflexivity].
+    apply memN_In, delN_In in E. destruct E as [_ E]. congruence. }
+  rewrite E, Hh. repeat split. rewrite has_cons, N.eqb_refl. reflexivity.
+Qed.
+
+(* before the fix a failed ws.HasChunk left the id marked: the retry returned nil without storing *)
+Theorem cs_retry_after_has_error_prefix_refuted :
   exists proc st i b,
-    let '(r1, proc1, st1) := cs_store_seq proc st i b true false in
-    let '(r2, proc2, st2) := cs_store_seq proc1 st1 i b false false in
+    let '(r1, proc1, st1) := cs_store_seq false proc st i b true false in
+    let '(r2, proc2, st2) := cs_store_seq false proc1 st1 i b false false in
     r1 = false /\ r2 = true /\ has st2 i = false.
 Proof. exists [], [], 5%N, [5%N]. vm_compute. repeat split; reflexivity. Qed.
 
